@@ -3,7 +3,7 @@ The `join` factory inside the SQL engine: `PartialJoin._begin_apply` resolves th
 `apply` hands over to `append_unary`, which conforms the target and joins the two Selects.
 -/
 import DafRel.Lemmas.ConformSound
-import DafRel.Props.C14
+import DafRel.Lemmas.JoinCommon
 
 namespace DafRel
 
@@ -123,7 +123,7 @@ theorem pjBeginApply_ok (p : PJoin) (x : Rel) (pref : Option Engine) (p' : PJoin
     | error e' => simp [hc] at h
     | ok common =>
       simp only [hc] at h
-      have hcm := (Props.C14.join_common_columns_resolved p.join _ _ common (by simpa using hr) hc).1
+      have hcm := (appliedCommonColumns_resolved p.join _ _ common (by simpa using hr) hc).1
       obtain ⟨k1, k2, k3, k4, k5, k6, k7, k8⟩ :=
         key { p with join := { p.join with minCols := common, maxCols := some common } } rfl rfl rfl
           ((Cols.subset_iff _ _).mpr fun t ht => (hcm t ht).1) (fun _ => hc) h
